@@ -1131,6 +1131,17 @@ Vattach(HFILEID     f,    /* IN: file handle */
         if (vg->oref == 0)
             HGOTO_ERROR(DFE_NOREF, FAIL);
 
+        /* Once the file's reference counter has reached MAX_REF, Hnewref only knows
+           the numbers of the descriptors in the file: a vgroup created earlier and not
+           yet written (no Vdetach yet) has none, so the same number comes back.
+           Two vgroups must never share a number. */
+        {
+            int32 new_key = (int32)vg->oref;
+
+            if (tbbtdfind(vf->vgtree, (void *)&new_key, NULL) != NULL)
+                HGOTO_ERROR(DFE_NOREF, FAIL);
+        }
+
         vg->access = (int)acc_mode;
 
         vg->marked = 1;
